@@ -1,10 +1,182 @@
 import TwigModel.Proto
+import TwigModel.AttrCache
 open Lean
 namespace Twig.Ops
+open Twig.AttrCache
 
+/-
+  JSON formats (all strings are plain JSON strings; the harness only generates ASCII names and values)
+
+  env    : [ {"name": s, "fields": [[name, exported, embedded, ty]…], "methods": [[name, exported, ptrRecv, numIn, body]…]} … ]
+           ty   = "s" (scalar) | "S<id>" (struct) | "P<id>" (pointer to struct);   a type's id is its position
+           body = null (no result) | {"c": s} (constant) | {"f": i} (i-th field of the receiver)
+  val    : null | {"k":"s","v":s} | {"k":"st","id":n,"r":s,"f":[val…]} | {"k":"pt","id":n,"r":s,"f":[val…]}
+           | {"k":"np","id":n,"r":s} | {"k":"sm","e":[[key,val]…]} | {"k":"tm","r":s,"e":[[key,val]…]}
+           | {"k":"pm","r":s,"e":[[key,val]…]} | {"k":"o","r":s}
+  facts  : {"keyType":b,"keyAttr":b,"fullPath":b,"typedMap":b,"maxSize":n,"numToEvict":n}   (absent = codeFacts)
+  oracle : {"kind":"oldest"|"newest"|"mod"|"all","k":n}                                 (absent = oldest numToEvict)
+
+  attr_run   {env, vals:[val…], hist:[[valIndex, attr, item?]…], facts?, oracle?}
+             → {"res":[printed result per step], "hits":n, "misses":n, "evictions":n, "len":n, "currSize":n,
+                "maxLen":n}
+  attr_types {env, qs:[[typeId, attr]…]}
+             → {"sets":[[[value method names],[pointer method names]] per type],
+                "resolved":[[fieldIndex,[fieldPath…],isMethod,methodIndex,ptrMethod] per q]}
+-/
+
+namespace AttrCacheJson
+
+def parseTy (s : String) : Except String FTy :=
+  if s == "s" then pure .scalar
+  else match s.toList with
+    | 'S' :: ds => match (String.ofList ds).toNat? with
+      | some n => pure (.struct n)
+      | none => throw s!"bad ty {s}"
+    | 'P' :: ds => match (String.ofList ds).toNat? with
+      | some n => pure (.ptr n)
+      | none => throw s!"bad ty {s}"
+    | _ => throw s!"bad ty {s}"
+
+def parseField (j : Json) : Except String FieldDesc := do
+  let a ← j.getArr?
+  if a.size != 4 then throw "field: want 4 items"
+  let ty ← parseTy (← a[3]!.getStr?)
+  pure { name := ← a[0]!.getStr?, exported := ← a[1]!.getBool?, embedded := ← a[2]!.getBool?, ty := ty }
+
+def parseBody (j : Json) : Except String MBody :=
+  if j.isNull then pure .noResult
+  else match j.getObjVal? "c" with
+    | .ok c => do pure (.const (← c.getStr?))
+    | .error _ => do pure (.recvField (← j.getObjValAs? Nat "f"))
+
+def parseMethod (j : Json) : Except String MethodDesc := do
+  let a ← j.getArr?
+  if a.size != 5 then throw "method: want 5 items"
+  pure { name := ← a[0]!.getStr?, exported := ← a[1]!.getBool?, ptrRecv := ← a[2]!.getBool?,
+         numIn := ← a[3]!.getNat?, body := ← parseBody a[4]! }
+
+def parseStruct (j : Json) : Except String StructDesc := do
+  let fs ← (← Proto.getArr j "fields").toList.mapM parseField
+  let ms ← (← Proto.getArr j "methods").toList.mapM parseMethod
+  pure { name := ← Proto.getStr j "name", fields := fs, methods := ms }
+
+def parseEnv (j : Json) : Except String Env := do
+  (← Proto.getArr j "env").mapM parseStruct
+
+def parseVal : Nat → Json → Except String Val
+  | 0, _ => throw "value nested too deeply"
+  | n + 1, j =>
+    if j.isNull then pure .nil else do
+    let k ← Proto.getStr j "k"
+    let entries : Except String (List (String × Val)) := do
+      (← Proto.getArr j "e").toList.mapM (fun p => do
+        let a ← p.getArr?
+        if a.size != 2 then throw "entry: want 2 items"
+        pure (← a[0]!.getStr?, ← parseVal n a[1]!))
+    let fields : Except String (List Val) := do
+      (← Proto.getArr j "f").toList.mapM (parseVal n)
+    match k with
+    | "s" => pure (.scalar (← Proto.getStr j "v"))
+    | "st" => pure (.struct (← Proto.getNat j "id") (← Proto.getStr j "r") (← fields))
+    | "pt" => pure (.ptrTo (← Proto.getNat j "id") (← Proto.getStr j "r") (← fields))
+    | "np" => pure (.nilPtr (← Proto.getNat j "id") (← Proto.getStr j "r"))
+    | "sm" => pure (.smap (← entries))
+    | "tm" => pure (.tmap (← Proto.getStr j "r") (← entries))
+    | "pm" => pure (.pmap (← Proto.getStr j "r") (← entries))
+    | "o" => pure (.other (← Proto.getStr j "r"))
+    | _ => throw s!"bad value kind {k}"
+
+def parseFacts (j : Json) : Except String Facts :=
+  match j.getObjVal? "facts" with
+  | .error _ => pure codeFacts
+  | .ok f => do
+    pure { keyHasType := ← Proto.getBool f "keyType", keyHasAttr := ← Proto.getBool f "keyAttr",
+           fullPath := ← Proto.getBool f "fullPath", typedMapAttr := ← Proto.getBool f "typedMap",
+           maxSize := ← Proto.getNat f "maxSize", numToEvict := ← Proto.getNat f "numToEvict" }
+
+def parseOracle (F : Facts) (j : Json) : Except String Oracle :=
+  match j.getObjVal? "oracle" with
+  | .error _ => pure (oracleOldest F.numToEvict)
+  | .ok o => do
+    let k ← Proto.getNat o "k"
+    match ← Proto.getStr o "kind" with
+    | "oldest" => pure (oracleOldest k)
+    | "newest" => pure (oracleNewest k)
+    | "mod" => pure (oracleMod k)
+    | "all" => pure (fun _ c => c.keys)
+    | s => throw s!"bad oracle {s}"
+
+structure Stats where
+  res : Array Json := #[]
+  hits : Nat := 0
+  misses : Nat := 0
+  evictions : Nat := 0
+  maxLen : Nat := 0
+
+def typeOfObj : Val → Option TypeId
+  | .struct T _ _ => some T
+  | .ptrTo T _ _ => some T
+  | _ => none
+
+/-- one step of the history, with bookkeeping for the report (the result itself is `getAttribute`/`getItem`) -/
+def stepRun (F : Facts) (env : Env) (ω : Oracle) (n : Nat) (c : Cache) (st : Stats)
+    (obj : Val) (a : String) (item : Bool) : Cache × Stats :=
+  if item then (c, { st with res := st.res.push (Json.str (getItem obj a).print) })
+  else
+    let (r, c') := getAttribute F env (ω n c) c obj a
+    let st := { st with res := st.res.push (Json.str r.print), maxLen := max st.maxLen c'.m.length }
+    match typeOfObj obj with
+    | none => (c', st)
+    | some T =>
+      if (c.get (mkKey F T a)).isSome then (c', { st with hits := st.hits + 1 })
+      else (c', { st with misses := st.misses + 1,
+                          evictions := st.evictions + (if c.currSize ≥ Int.ofNat F.maxSize then 1 else 0) })
+
+def runAll (F : Facts) (env : Env) (ω : Oracle) (vals : Array Val) :
+    List (Nat × String × Bool) → Nat → Cache → Stats → Cache × Stats
+  | [], _, c, st => (c, st)
+  | (vi, a, item) :: rest, n, c, st =>
+    let (c', st') := stepRun F env ω n c st (vals[vi]?.getD .nil) a item
+    runAll F env ω vals rest (n + 1) c' st'
+
+def parseStep (j : Json) : Except String (Nat × String × Bool) := do
+  let a ← j.getArr?
+  if a.size < 2 then throw "step: want [valIndex, attr, item?]"
+  let item := if a.size ≥ 3 then (a[2]!.getBool?).toOption.getD false else false
+  pure (← a[0]!.getNat?, ← a[1]!.getStr?, item)
+
+def resolvedJson (r : Resolved) : Json :=
+  Json.arr #[Json.num (JsonNumber.fromInt r.fieldIndex), Json.arr (r.fieldPath.map (fun (n : Nat) => (n : Json))).toArray,
+    Json.bool r.isMethod, Json.num (JsonNumber.fromInt r.methodIndex), Json.bool r.ptrMethod]
+
+def namesJson (ms : List MethodRef) : Json := Json.arr (ms.map (fun m => Json.str m.name)).toArray
+
+end AttrCacheJson
+
+open AttrCacheJson in
 /-- driver ops of the AttrCache area (see the module TwigModel.AttrCache); `none` = not one of ours -/
 def attrCacheOps (op : String) (j : Json) : Option (Except String Json) :=
   match op with
+  | "attr_run" => some do
+      let env ← parseEnv j
+      let F ← parseFacts j
+      let ω ← parseOracle F j
+      let vals ← (← Proto.getArr j "vals").toList.mapM (parseVal 16)
+      let hist ← (← Proto.getArr j "hist").toList.mapM parseStep
+      let (c, st) := runAll F env ω vals.toArray hist 0 Cache.empty {}
+      pure (Proto.ok [("res", Json.arr st.res), ("hits", st.hits), ("misses", st.misses),
+        ("evictions", st.evictions), ("len", c.m.length), ("currSize", Json.num (JsonNumber.fromInt c.currSize)),
+        ("maxLen", st.maxLen)])
+  | "attr_types" => some do
+      let env ← parseEnv j
+      let qs ← (← Proto.getArr j "qs").toList.mapM (fun q => do
+        let a ← q.getArr?
+        if a.size != 2 then throw "q: want [typeId, attr]"
+        pure (← a[0]!.getNat?, ← a[1]!.getStr?))
+      let sets := (List.range env.size).map (fun T =>
+        Json.arr #[namesJson (methodSet env T false), namesJson (methodSet env T true)])
+      pure (Proto.ok [("sets", Json.arr sets.toArray),
+        ("resolved", Json.arr (qs.map (fun q => resolvedJson (resolveCode env q.1 q.2))).toArray)])
   | _ => none
 
 end Twig.Ops
